@@ -321,7 +321,7 @@ def rule_handover_semantics(ctx, ix):
 
                 return f
 
-            self_, tensors, _parts, _formats = call_scenario(text, 0, evaluate, target_first)
+            self_, tensors, _parts, _formats = call_scenario(text, 0, evaluate, target_first, ix=ix)
             def finalizer(*args, _ev=events, **kw):
                 _ev.append(("finalize", args))
                 return S.Obj("finalizer")
